@@ -137,6 +137,7 @@ func runHistory(r *ev.Run, root string, h int) {
 			}
 		}
 		if in.plan.Frozen() {
+			in.crash()
 			label := hs.classifyCrash()
 			hs.armed = "none"
 			if !hs.restart(label) {
@@ -159,7 +160,7 @@ func runHistory(r *ev.Run, root string, h int) {
 			if l2 > t2 {
 				label = "compaction-in-flight"
 			}
-			in.plan.FreezeNow()
+			in.crash()
 			if !hs.restart(label + "/" + mode) {
 				return
 			}
@@ -169,7 +170,7 @@ func runHistory(r *ev.Run, root string, h int) {
 		r.Inconclusive(id + ": compaction did not reach a terminal event within 30 s")
 		return
 	}
-	in.plan.FreezeNow()
+	in.crash()
 	label := "final/after-compaction"
 	if in.meta.packedTotal() == 0 {
 		label = "final/no-compaction"
@@ -182,7 +183,7 @@ func runHistory(r *ev.Run, root string, h int) {
 		r.Inconclusive(id + ": start-up compaction did not reach a terminal event within 30 s")
 		return
 	}
-	in.plan.FreezeNow()
+	in.crash()
 	if !hs.restart("final/after-startup-compaction") {
 		return
 	}
@@ -213,7 +214,6 @@ func (hs *history) open(kind string) error {
 	in.meta.hook = nil
 	in.meta.mu.Unlock()
 	var arm func(p *inject.Plan)
-	var plan *inject.Plan
 	switch kind {
 	case "freeze-at-deletions":
 		arm = func(p *inject.Plan) {
@@ -222,21 +222,17 @@ func (hs *history) open(kind string) error {
 		}
 	case "partial-deletions", "deletions-unacked", "freeze-at-packed-upload":
 		k := hs.rng.Intn(1000)
-		arm = func(p *inject.Plan) { plan = p }
 		in.meta.mu.Lock()
-		in.meta.hook = func(op string, refs []blob.Ref, size int) (action, int) {
+		in.meta.hook = func(op string, refs []blob.Ref, size int) (action, int, bool) {
 			switch {
 			case kind == "freeze-at-packed-upload" && op == "ReceiveBlob" && size >= packedMin:
-				plan.FreezeNow()
-				return actFail, 0
+				return actFail, 0, true
 			case kind == "partial-deletions" && op == "RemoveBlobs" && len(refs) > 1:
-				plan.FreezeNow()
-				return actPartial, 1 + k%(len(refs)-1)
+				return actPartial, 1 + k%(len(refs)-1), true
 			case kind == "deletions-unacked" && op == "RemoveBlobs":
-				plan.FreezeNow()
-				return actDoneFail, 0
+				return actDoneFail, 0, true
 			}
-			return actPass, 0
+			return actPass, 0, false
 		}
 		in.meta.mu.Unlock()
 	}
@@ -294,6 +290,7 @@ func (hs *history) restart(label string) bool {
 			break
 		}
 		if in.lastPlan.Frozen() && attempt < 3 {
+			in.crash()
 			// the planned crash hit the compaction that the start-up scan itself launched: one more crash
 			hs.armed = "none"
 			label = hs.classifyCrash()
